@@ -68,8 +68,8 @@ func c14Glob(pat, s string) bool {
 // ---- scripts ----------------------------------------------------------------
 
 type c14Pub struct {
-	Via   int      `json:"via"`   // member index the publisher talks to
-	Chans []string `json:"chans"` // published sequentially
+	Via   int      `json:"via"`            // member index the publisher talks to
+	Chans []string `json:"chans"`          // published sequentially
 	Pick  bool     `json:"pick,omitempty"` // Go client: no ToAddress (round-robin member)
 }
 
